@@ -89,7 +89,7 @@ var plans = map[string]*Plan{
 	},
 	"C13": {
 		Level:     "exploration",
-		Scenarios: []ScenPlan{{"lbacct", 30000, 600000}, {"sysfault", 8000, 150000}, {"sysws", 3000, 40000}},
+		Scenarios: []ScenPlan{{"lbacct", 30000, 600000}, {"sysfault", 8000, 150000}, {"sysws", 3000, 40000}, {"sysxfer", 4000, 60000}},
 		QuickWallS: 120, ThoroughWallS: 1500,
 		Rule:        "Scenario lbacct: every request class (ok, 4xx, 5xx, unreachable, aborted mid-body, client gone, rate-limited, breaker-rejected, no healthy backend, held) sequentially and with 2-8 (thorough 2-64) concurrent clients; conservation equations against the harness' own tallies at every quiescent point.",
 		Real:        microReal, Stub: microStub, Assumptions: commonAssumptions,
@@ -170,10 +170,11 @@ var plans = map[string]*Plan{
 	"C12": {
 		Level:     "exploration",
 		Race:      true,
-		Scenarios: []ScenPlan{{"sysrace", 1600, 24000}},
+		Scenarios: []ScenPlan{{"sysrace", 1600, 24000}, {"comprace", 1600, 24000}},
 		Micro:     []ScenPlan{{"lbmix", 16000, 400000}},
+		
 		QuickWallS: 200, ThoroughWallS: 1700,
-		Rule:        "Scenario sysrace (binary built with -race, network in free-delivery mode, GOMAXPROCS=4 per worker): 8-24 (thorough 8-64) goroutines running a drawn mix of client traffic with 5xx/reset/short-body faults, admin add/remove/strategy/list, /metrics, /health, /v1/backends readers, passive+active health transitions, breaker, limiter, plugins, then shutdownGracefully; every strategy and feature combination is drawn. The workload is seed-determined; the schedule is the Go scheduler's. Violations: race-detector reports with Helios frames (fingerprint = the two sites), panics, goroutines stuck on Helios locks. Second phase, scenario lbmix (ordinary build, seeded cooperative scheduler): bursts of 3-10 (thorough up to 24) tasks drawn from client traffic with backend faults, admin list/add/remove/strategy, metrics/health readers, explicit ejections, Stop, with probes and elapsed unhealthy windows between bursts, preempted at every Helios lock, atomic and go statement; the RWMutex model gives waiting writers preference over new readers as sync.RWMutex does; violations: wait-for cycles / tasks blocked for good, spinning without progress, panics out of Helios code, WaitGroup misuse -- each with a replayable schedule.",
+		Rule:        "Scenario sysrace (binary built with -race, network in free-delivery mode, GOMAXPROCS=4 per worker): 8-24 (thorough 8-64) goroutines running a drawn mix of client traffic with 5xx/reset/short-body faults, admin add/remove/strategy/list, /metrics, /health, /v1/backends readers, passive+active health transitions, breaker, limiter, plugins, then shutdownGracefully; every strategy and feature combination is drawn. The workload is seed-determined; the schedule is the Go scheduler's. Violations: race-detector reports with Helios frames (fingerprint = the two sites), panics, goroutines stuck on Helios locks. Scenario comprace (same build): circuit breaker (millisecond timeouts, so it cycles through its states hundreds of times per run), rate limiter (cleanup against buckets in use, ever new clients), WebSocket pool (cleanup/shutdown against Get/Put/Close) and metrics collector, each hammered directly by 4-12 free-running goroutines; in half of the runs of both scenarios every goroutine yields the processor right after releasing a lock. Second phase, scenario lbmix (ordinary build, seeded cooperative scheduler): bursts of 3-10 (thorough up to 24) tasks drawn from client traffic with backend faults, admin list/add/remove/strategy, metrics/health readers, explicit ejections, Stop, with probes and elapsed unhealthy windows between bursts, preempted at every Helios lock, atomic and go statement; the RWMutex model gives waiting writers preference over new readers as sync.RWMutex does; violations: wait-for cycles / tasks blocked for good, spinning without progress, panics out of Helios code, WaitGroup misuse -- each with a replayable schedule.",
 		Real:        sysReal, Stub: append(append([]string{}, sysStub...), "goroutine scheduling: NOT simulated in this check (Go runtime under the race detector)"), Assumptions: append(append([]string{}, commonAssumptions...), "race detector (happens-before) decides; reproduction of a report from its seed is attempted up to 6 times because the schedule is not seed-decided"),
 		ExpectProbes: []string{"race-run-completed"},
 	},
